@@ -260,8 +260,12 @@ class NativeFilestore(VirtualFilestore):
             return FilestoreResponseStatusCode.RENAME_OLD_FILE_DOES_NOT_EXIST
         if new_file.exists():
             return FilestoreResponseStatusCode.RENAME_NEW_FILE_DOES_EXIST
-        old_file.rename(new_file)
-        return FilestoreResponseStatusCode.RENAME_SUCCESS
+        try:
+            old_file.rename(new_file)
+            return FilestoreResponseStatusCode.RENAME_SUCCESS
+        except OSError:
+            _LOGGER.exception(f"Renaming {old_file} to {new_file} failed")
+            return FilestoreResponseStatusCode.RENAME_NOT_PERFORMED
 
     def replace_file(self, replaced_file: Path, source_file: Path) -> FilestoreResponseStatusCode:
         if replaced_file.is_dir() or source_file.is_dir():
